@@ -668,6 +668,10 @@ _ZCMP = {ast.Lt: lambda x, y: x < y, ast.LtE: lambda x, y: x <= y,
 
 
 def is_identical(a, b):
+    if isinstance(a, (SOptRec, SOptTuple)) and b is None:
+        return z_not(z_bool(a.present))
+    if isinstance(b, (SOptRec, SOptTuple)) and a is None:
+        return z_not(z_bool(b.present))
     if a is None and isinstance(b, SV):
         return b.none if b.none is not None else False
     if b is None and isinstance(a, SV):
